@@ -107,6 +107,8 @@ NormDeep(t) == CASE t.k \in {"int", "flt"} -> NormNum(t)
 NormDeepSeq(ts) == IF ts = <<>> THEN <<>> ELSE <<NormDeep(Head(ts))>> \o NormDeepSeq(Tail(ts))
 SameAnswer(logged, b) == NormDeepSeq(UnpackSeq(logged)) = NormDeepSeq(AnswerOf(query, b))
 
+ExpectSeg(i) == IF i <= Len(expect.segs) THEN expect.segs[i] ELSE [out |-> <<>>, ans |-> <<>>, some |-> FALSE]
+PackSeg(sg) == [out |-> sg.out, some |-> sg.some, ans |-> PackSeq(sg.ans)]
 RECURSIVE ConcatAll(_)
 ConcatAll(ss) == IF ss = <<>> THEN "" ELSE Head(ss) \o ConcatAll(Tail(ss))
 
@@ -116,6 +118,12 @@ TRet ==
     /\ TEv.some = ret.some
     /\ (ret.some => SameAnswer(TEv.ans, ret.b))
     /\ TEv.out = ConcatAll(outbuf)
+    (* the machine's reply must be the reference search's (a property of Solver.tla vs   *)
+    (* SLD.tla on the recorded PROGRAM: a difference is reported as SPECDIFF, a defect    *)
+    (* of the specification, and checking goes on)                                        *)
+    /\ IF expect.over \/ hist'[Len(hist')] = ExpectSeg(Len(hist')) THEN TRUE
+       ELSE PrintT(<<"SPECDIFF", [at |-> l, machine |-> ToJson(PackSeg(hist'[Len(hist')])),
+                                  reference |-> ToJson(PackSeg(ExpectSeg(Len(hist'))))]>>)
     /\ l' = l + 1 /\ UNCHANGED <<runs, verdict, expect, nrej>>
 
 (* which machine steps correspond to an event of the implementation            *)
